@@ -696,7 +696,7 @@ def main():
     # exclusion macro; the finding is printed as KNOWN-FINDING when the restricted run passes
     violations, known_hit, inconclusive, errors = [], [], [], []
     byname = {h["name"]: h for h in hs}
-    for r in recs:
+    for r in list(recs):      # the re-runs appended below are evidence records, not harnesses of the spec
         v = r.get("verdict")
         if v in ("violation", "violation-ub-unconfirmed"):
             ks = [k for k in known if k.get("status") == "known" and (k.get("harness") == r["harness"] or (k.get("harness_re") and re.search(k["harness_re"], r["harness"])))]
